@@ -114,7 +114,11 @@ def metadata_blocks(fs):
         out.add(fs.desc_block_loc(i))
     gcs = fs.has_gdt_csum or fs.has_csum
     for gd in fs.groups:
-        out |= {gd["block_bitmap"], gd["inode_bitmap"]}
+        # bitmap blocks whose content the descriptor declares not yet initialised are not metadata (e2image skips them)
+        if not (gcs and gd["flags"] & BG_BLOCK_UNINIT):
+            out.add(gd["block_bitmap"])
+        if not (gcs and gd["flags"] & BG_INODE_UNINIT):
+            out.add(gd["inode_bitmap"])
         # the inode table as far as it is in use: e2image (like the kernel) leaves out the part the descriptor declares
         # unused (bg_itable_unused) and the tables of INODE_UNINIT groups - released inodes there are not metadata any more
         if gcs and gd["flags"] & BG_INODE_UNINIT:
@@ -257,6 +261,16 @@ def one_case(src, mexe, idx, seed, tier):
     fs = Fs(base)
     need = metadata_blocks(fs)
     stat["metadata_blocks"] = len(need)
+    if idx % 2 == 1:
+        # the raw output file already exists and holds other data: every metadata block of the source - the all-zero ones
+        # too - has to be written over it
+        with open(outs["raw"], "wb") as f:
+            chunk = bytes([0x77]) * (1 << 20)
+            left = fs.blocks_count * fs.bs
+            while left > 0:
+                f.write(chunk[:min(left, len(chunk))])
+                left -= len(chunk)
+        recipe["raw_output"] = "existing file filled with 0x77"
     runs = [("-r", [T("misc/e2image"), "-r", base, outs["raw"]]), ("-Q", [T("misc/e2image"), "-Q", base, outs["qcow"]]),
             ("-ra", [T("misc/e2image"), "-ra", base, outs["rawall"]]), ("normal", [T("misc/e2image"), base, outs["e2i"]])]
     for label, cmd in runs:
@@ -346,7 +360,11 @@ def one_case(src, mexe, idx, seed, tier):
     else:
         raw2 = open(outs["raw2"], "rb").read()
         n = max(len(raw), len(raw2))
-        if raw.ljust(n, b"\0") != raw2.ljust(n, b"\0"):
+        if recipe.get("raw_output"):
+            # the direct raw image was written over other data: compare what an image has to carry
+            if any(raw[b * bs:(b + 1) * bs] != raw2[b * bs:(b + 1) * bs].ljust(bs, b"\0") for b in need):
+                problems.append("raw image made from the qcow2 image differs from the direct raw image in a metadata block")
+        elif raw.ljust(n, b"\0") != raw2.ljust(n, b"\0"):
             problems.append("raw image made from the qcow2 image differs from the direct raw image")
         if len(raw) != fs.blocks_count * bs or len(raw2) != fs.blocks_count * bs:
             problems.append("raw images are %d / %d bytes, the filesystem %d" % (len(raw), len(raw2), fs.blocks_count * bs))
